@@ -266,6 +266,8 @@ factory!(T3W2, Toy<U3, U2>, "toy", ige = yes, ctr32 = no, ctr64 = no, ctr128 = n
 factory!(T4W1, Toy<U4, U1>, "toy", ige = yes, ctr32 = yes, ctr64 = no, ctr128 = no, belt = no);
 factory!(T4W3, Toy<U4, U3>, "toy", ige = yes, ctr32 = yes, ctr64 = no, ctr128 = no, belt = no);
 factory!(T5W4, Toy<U5, U4>, "toy", ige = yes, ctr32 = no, ctr64 = no, ctr128 = no, belt = no);
+factory!(T6W2, Toy<U6, U2>, "toy", ige = yes, ctr32 = no, ctr64 = no, ctr128 = no, belt = no);
+factory!(T7W3, Toy<U7, U3>, "toy", ige = yes, ctr32 = no, ctr64 = no, ctr128 = no, belt = no);
 factory!(T8W1, Toy<U8, U1>, "toy", ige = yes, ctr32 = yes, ctr64 = yes, ctr128 = no, belt = no);
 factory!(T8W2, Toy<U8, U2>, "toy", ige = yes, ctr32 = yes, ctr64 = yes, ctr128 = no, belt = no);
 factory!(T8W5, Toy<U8, U5>, "toy", ige = yes, ctr32 = yes, ctr64 = yes, ctr128 = no, belt = no);
@@ -278,6 +280,7 @@ factory!(T16W8, Toy<U16, U8>, "toy", ige = yes, ctr32 = yes, ctr64 = yes, ctr128
 factory!(T16W16, Toy<U16, U16>, "toy", ige = yes, ctr32 = yes, ctr64 = yes, ctr128 = yes, belt = yes);
 factory!(T16W32, Toy<U16, U32>, "toy", ige = yes, ctr32 = yes, ctr64 = yes, ctr128 = yes, belt = yes);
 factory!(T64W6, Toy<U64, U6>, "toy", ige = yes, ctr32 = yes, ctr64 = yes, ctr128 = yes, belt = no);
+factory!(T20W2, Toy<U20, U2>, "toy", ige = yes, ctr32 = yes, ctr64 = no, ctr128 = no, belt = no);
 factory!(T24W2, Toy<U24, U2>, "toy", ige = yes, ctr32 = yes, ctr64 = yes, ctr128 = no, belt = no);
 factory!(T32W3, Toy<U32, U3>, "toy", ige = yes, ctr32 = yes, ctr64 = yes, ctr128 = yes, belt = no);
 factory!(T48W2, Toy<U48, U2>, "toy", ige = yes, ctr32 = yes, ctr64 = yes, ctr128 = yes, belt = no);
@@ -302,6 +305,8 @@ pub fn all_factories() -> Vec<Box<dyn Factory>> {
         Box::new(T4W1),
         Box::new(T4W3),
         Box::new(T5W4),
+        Box::new(T6W2),
+        Box::new(T7W3),
         Box::new(T8W1),
         Box::new(T8W2),
         Box::new(T8W5),
@@ -314,6 +319,7 @@ pub fn all_factories() -> Vec<Box<dyn Factory>> {
         Box::new(T16W16),
         Box::new(T16W32),
         Box::new(T64W6),
+        Box::new(T20W2),
         Box::new(T24W2),
         Box::new(T32W3),
         Box::new(T48W2),
